@@ -211,7 +211,7 @@ func init() {
 		Level: "exploration",
 		Rule: "API-built documents from the operation-script generator (XML-carriable strings with edge whitespace, tabs, newlines, non-ASCII); every third case lets one of 16 operation families dominate (paragraph setters, table content/structure/look, images, page settings, lists, headings, formatted paragraphs, page breaks, headers/footers, notes, TOC, formulas, properties, styles) so that each family is covered densely. " +
 			"Oracle: (1) the public in-memory model after opening the saved document (paragraph texts, table shapes, cell texts, nested tables, page settings) equals the model before saving; (2) the main part written after reopening equals the first one canonically - every difference is reported with its element path (lost/gained/changed-on-open/<path>[@attr]); (3) the same for 2 (thorough 4) further open/save cycles (…-unstable-cycle/<path>). Non-trivial: >=2 operation families and >=1 main-part comparison; distinct = call sequence.",
-		Cases:         func(t string) int { return tierN(t, 2400, 80000) },
+		Cases:         func(t string) int { return tierN(t, 5000, 80000) },
 		Run:           c03Case,
 		Assume:        []string{"attribute order, prefixes, indentation, empty property containers, xml:space and map-ordered collections are normalised away", "parts other than the main part are the business of C04/C13"},
 		CaseTimeoutS:  60,
